@@ -456,3 +456,52 @@ def dispatch_long(mi, k, pat, where, hsel):
     if where == 3:
         return dispatch("x/" + text, True, 7, 0, "v", hsel)
     return dispatch(m, True, 7, 6 if m == "tools/call" else (7 if m == "resources/read" else 0), "v", hsel, text)
+
+
+def init_long(k, form, sidx):
+    """requested protocolVersion = a supported version (0) followed by, (1) preceded by, (2) split in the middle by
+    n characters, or (3) n characters of digits and dashes; n = c-1, c, c+1.  n = 0 requests the supported version"""
+    n = _sizes.pick(_sizes.size_cases(70000, extra=_sizes.ENV_SIZES), k)
+    sv = VER.SUPPORTED_VERSIONS[0] if sidx == 0 else (VER.SUPPORTED_VERSIONS[1] if sidx == 1 else VER.SUPPORTED_VERSIONS[-1])
+    pad = "x" * n
+    if form == 0:
+        v = sv + pad
+    elif form == 1:
+        v = pad + sv
+    elif form == 2:
+        v = sv[:5] + pad + sv[5:]
+    else:
+        v = ("2025-06-18" * (n // 10 + 1))[:n]
+    return init_version(0, v, 0)
+
+
+def init_nth(k, sidx, v_unsupported, lim=410):
+    """the (n+1)-th initialize on one server (n earlier handshakes at supported versions): answered like the first"""
+    n = _sizes.pick(_sizes.size_cases(lim), k)
+    s = make_server(0)
+    sup = list(VER.SUPPORTED_VERSIONS)
+    for i in range(n):
+        m = JSONRPCMessage(jsonrpc="2.0", id=i, method="initialize", params={"protocolVersion": sup[i % len(sup)], "clientInfo": {"name": "c%d" % i, "version": "1"}, "capabilities": {}})
+        resp, sid = drive(s.protocol_handler.handle_message(m, None))
+        d = dump(resp) if resp is not None else {}
+        if (d.get("result") or {}).get("protocolVersion") != sup[i % len(sup)]:
+            return "earlier-handshake-not-acknowledged-at-its-version"
+    want = (sup[0] if sidx == 0 else (sup[1] if sidx == 1 else sup[-1])) if not v_unsupported else "1999-01-01"
+    m = JSONRPCMessage(jsonrpc="2.0", id="last", method="initialize", params={"protocolVersion": want, "clientInfo": {"name": "last", "version": "1"}, "capabilities": {}})
+    resp, sid = drive(s.protocol_handler.handle_message(m, None))
+    if resp is None:
+        return "no-response"
+    d = dump(resp)
+    if "error" in d:
+        return "supported-version-refused" if not v_unsupported else "ok"
+    ans = (d.get("result") or {}).get("protocolVersion")
+    if not isinstance(ans, str) or not _in(ans, sup):
+        return "acknowledged-unsupported-version"
+    if not v_unsupported and ans != want:
+        return "supported-request-answered-with-other-version"
+    rec = s.protocol_handler.session_manager.get_session(sid) if sid is not None else None
+    if rec is None or rec.protocol_version != ans:
+        return "session-version-differs-from-answer"
+    if s.protocol_handler.session_manager.get_session_count() != n + 1:
+        return "sessions-lost-or-duplicated"
+    return "ok"
